@@ -15,7 +15,7 @@
    [et_roundtrip_pure], [saved_svg2paths_default] (f_default_ns: svg2paths
    finds every path element of a saved document). *)
 From Coq Require Import String List Bool Ascii Lia PeanoNat.
-From SVP Require Import Model.SvgIO.
+From SVP Require Import Model.SvgIO Proofs.SvgIO.
 Import ListNotations.
 Open Scope string_scope.
 Open Scope list_scope.
@@ -391,6 +391,18 @@ Proof.
       destruct (chain_visible (nm :: rest) leaf Hp ltac:(discriminate)) as [Hg Hv].
       cbn [append_child]. rewrite doc_visible_unfold, go_vis_app. apply in_or_app. right.
       apply in_or_app. left. cbn [go_vis app]. rewrite Hg. exact Hv.
+Qed.
+
+(* attribs = attribs.copy(); attribs['d'] = path_svg: the path that is added
+   supersedes a 'd' entry of the supplied attribute dict (e.g. dicts loaded
+   with svg2paths carry the old d); every other supplied attribute is kept *)
+Lemma new_path_d c d a : lookup "d" (x_attrs (new_path_element c d a)) = Some d.
+Proof. unfold new_path_element. cbn [x_attrs]. apply lookup_update_other. reflexivity. Qed.
+Lemma new_path_keeps c d a k :
+  k <> "d" -> lookup k (x_attrs (new_path_element c d a)) = lookup k a.
+Proof.
+  intros Hk. unfold new_path_element. cbn [x_attrs]. apply lookup_update_miss.
+  cbn [lookup]. apply String.eqb_neq in Hk. rewrite Hk. reflexivity.
 Qed.
 
 Lemma new_path_is_svg c d a : f_add_ns c = true -> is_svg_path (new_path_element c d a) = true.
